@@ -10,13 +10,13 @@ VERIF = run.VERIF
 class Scenario:
     def __init__(self, name, src, defines=(), threads=1, K=2, unwind=4, tier='quick', cover=(), timeout=None,
                  ndebug=True, note='', mt=None, unwind_map=None, prop=None, allow_unwound=False, assert_build=False,
-                 stop=(), uninit_zero=False, lin=None, portfolio=None, expect_violation=False, progress=(), sym_loop_cap=None, max_recursion=None):
+                 stop=(), uninit_zero=False, lin=None, portfolio=None, expect_violation=False, progress=(), sym_loop_cap=None, max_recursion=None, race=False):
         self.name = name; self.src = src if os.path.isabs(src) else os.path.join(VERIF, 'harness', src)
         self.defines = list(defines); self.threads = threads; self.K = K; self.unwind = unwind; self.tier = tier
         self.cover = list(cover); self.timeout = timeout; self.ndebug = ndebug; self.note = note
         self.mt = (threads > 1) if mt is None else mt
         self.unwind_map = unwind_map or {}; self.prop = prop; self.allow_unwound = allow_unwound
-        self.progress = tuple(progress); self.sym_loop_cap = sym_loop_cap; self.max_recursion = max_recursion
+        self.progress = tuple(progress); self.sym_loop_cap = sym_loop_cap; self.max_recursion = max_recursion; self.race = race
         self.stop = stop; self.uninit_zero = uninit_zero; self.lin = lin; self.portfolio = portfolio
 
     def bounds(self):
@@ -72,6 +72,9 @@ def _execute1(sc, mod, fixed, posmap, log, strict=False, fixed_sched=None, allow
     m.uninit_zero = sc.uninit_zero
     if sc.sym_loop_cap: m.sym_loop_cap = sc.sym_loop_cap
     if sc.max_recursion: m.max_recursion = sc.max_recursion
+    if sc.race and sc.mt:
+        from .race import Race
+        m.race = Race(m, sc.threads)
     m.posmap = posmap
     m.allow_missing = allow_missing
     m.fixed_sched = fixed_sched if posmap is not None else None
